@@ -10,6 +10,9 @@ import Proofs.Lemmas.C16Lines
 import Model.Tab.Render
 import Proofs.Lemmas.C16Render
 import Proofs.Lemmas.C16HeaderOps
+import Proofs.Lemmas.C16ToText
+import Proofs.Lemmas.C16Warn
+import Proofs.Lemmas.C16Decode
 
 namespace C16
 open Tab.TextTab
@@ -391,6 +394,88 @@ theorem text_csv_same_view_summary (wl : List Bytes) (t : Table) (label : Bytes)
       · rw [hf 2 (by omega)]; unfold sumTail; simp [hpos]
       · rw [hf 3 (by omega)]; unfold sumTail; simp [hpos]
 
+/-! ### warnings: footnotes of the text, second stream of the CSV -/
+
+open Tab.Render in
+/-- **footnote_numbering**: the warning list ToText ends with is the list of DISTINCT messages in
+the order in which the row-major traversal first meets them (`foldl addNew []` over
+`textWarnStream`: the warnings of every present cell — sample/summary warnings, then those of the
+comparison — row by row, then those of the summary row iff it is printed); it has no duplicates and
+contains exactly the messages of the stream; and the footnote lines are `<n> <message>` for
+n = 1, 2, 3, … in that order (`footnoteLines_append`: appending the n-th message appends exactly
+the line `superscript n ++ " " ++ message ++ "\n"`). -/
+theorem footnote_numbering (v : View) :
+    (toTextOps v).2 = (textWarnStream v).foldl addNew [] ∧
+    ((toTextOps v).2).Nodup ∧
+    (∀ m, m ∈ (toTextOps v).2 ↔ m ∈ textWarnStream v) ∧
+    (∀ (wl : List Bytes) (m : Bytes), footnoteLines (wl ++ [m]) =
+      footnoteLines wl ++ (superscript (wl.length + 1) ++ [0x20] ++ m ++ [0x0A])) := by
+  have h := toTextOps_snd v
+  refine ⟨h, ?_, ?_, footnoteLines_append⟩
+  · rw [h]; exact nodup_foldl_addNew _ [] (by simp)
+  · intro m; rw [h, mem_foldl_addNew]; simp
+
+open Tab.Render in
+/-- **warn_marks_are_numbers**: whenever ToText calls `warn(msgs)` with the list `wl`, the list
+only grows at its end, and the superscripts written into the footnote cell (joined by blanks:
+`warnCell`) are, message by message, the 1-based positions of the messages in ANY later state
+`fin` of the list — in particular in the final list the footnote lines are printed from, because
+every later call only appends (`dataColsOps`, `dataRowsOps`, `sumColsOps` all return
+`foldl addNew` of their messages over the list they were given). -/
+theorem warn_marks_are_numbers (wl msgs fin x : List Bytes) (hfin : fin = msgs.foldl addNew wl ++ x) :
+    (∃ y, (warnCell wl msgs).1 = wl ++ y) ∧
+    ∃ marks, (warnCell wl msgs).2 = Op.span 1 (joinSp marks) [] ∧ marks.length = msgs.length ∧
+      ∀ k, k < msgs.length → ∃ i, findIdx fin (msgs.getD k []) = some i ∧ fin.getD i [] = msgs.getD k [] ∧
+        marks.getD k [] = superscript (i + 1) := by
+  have hw := warn_fold msgs wl []
+  refine ⟨?_, ?_⟩
+  · rw [warnCell_fst]; exact foldl_addNew_prefix msgs wl
+  · obtain ⟨marks, h1, h2, h3⟩ := hw.2 fin x hfin
+    refine ⟨marks, ?_, h2, ?_⟩
+    · unfold warnCell; simp only; rw [h1]; simp
+    · intro k hk
+      obtain ⟨i, hi1, hi2⟩ := h3 k hk
+      exact ⟨i, hi1, (findIdx_some_lt fin _ i hi1).2, hi2⟩
+
+open Tab.Render in
+/-- all (field index, CSV row number, message) triples of the warnings stream of a table -/
+def csvWarnPairs (v : View) (startRow : Nat) : List (Nat × Nat × Bytes) :=
+  rowsPairs (startRow + (v.nfields + 1)) v.rows ++
+  sumsPairs (startRow + (v.nfields + 1 + v.rows.length)) 0 v.summary
+
+open Tab.Render in
+/-- **same_warnings**: the CSV warnings stream is one line `warnLine (field, row, message)` per
+warning of every present cell — `field` is the record index of the cell the warning belongs to
+(`csvStartCol exp` for the centre, `csvStartCol exp + 2` for the comparison, the very positions of
+`text_csv_same_view`), `row` the CSV row of the measurement row — followed by those of the summary
+row. Its messages are `rowsMsgs ++ sumsMsgs`, the same stream the text numbers its footnotes from.
+Hence, as SETS of messages per table: with more than one row the footnotes of the text are exactly
+the messages of the CSV stream; with one row (no geomean row in the text) they are exactly the
+messages of the measurement rows, the CSV additionally carrying those of its geomean row. -/
+theorem same_warnings (v : View) (startRow : Nat) :
+    (toCsv v startRow).warn = (csvWarnPairs v startRow).map warnLine ∧
+    (csvWarnPairs v startRow).map (·.2.2) = rowsMsgs v.rows ++ sumsMsgs v.summary ∧
+    (v.rows.length > 1 → ∀ m, m ∈ (toTextOps v).2 ↔ m ∈ (csvWarnPairs v startRow).map (·.2.2)) ∧
+    (¬ v.rows.length > 1 → ∀ m, m ∈ (toTextOps v).2 ↔
+      m ∈ (rowsPairs (startRow + (v.nfields + 1)) v.rows).map (·.2.2)) := by
+  have hm : (csvWarnPairs v startRow).map (·.2.2) = rowsMsgs v.rows ++ sumsMsgs v.summary := by
+    unfold csvWarnPairs
+    rw [List.map_append, rowsPairs_msgs, sumsPairs_msgs]
+  have hf := (footnote_numbering v).2.2.1
+  refine ⟨toCsv_warn v startRow, hm, ?_, ?_⟩
+  · intro hr m
+    rw [hf m, hm]; unfold textWarnStream; simp [hr]
+  · intro hr m
+    rw [hf m, rowsPairs_msgs]; unfold textWarnStream; simp [hr]
+
+open Tab.Render in
+/-- the spreadsheet-style column label as the code builds it from the 0-based field index:
+digits `'A' + x % 26` of `x` in base 26, so fields 0..25 read A..Z, but field 26 reads "BA"
+(a spreadsheet's 27th column is "AA"); beyond column Z this is outside C16's statement -/
+theorem colName_behaviour :
+    colName 0 = [65] ∧ colName 1 = [66] ∧ colName 25 = [90] ∧ colName 26 = [66, 65] ∧ colName 27 = [66, 66] := by
+  decide
+
 /-! ### keyheader_partition -/
 
 open Tab.KeyHeader in
@@ -429,22 +514,11 @@ theorem keyheader_level_cover (keys : List (List Bytes)) (nf k : Nat) (hk : k < 
     (by simpa using hg.1) (fun x hx => (hg.2.2 x hx).2.2)
   exact this
 
-open Tab.KeyHeader Tab.Render in
-/-- **header_cells_span_keys** (full strength): ToText's header loop over the KeyHeader of the
-column keys, started on ANY texttab table `t`, never panics (no `Col` to an earlier column) and
-adds exactly `hdrCells`: one row per tree level and on it, for every node of that level, one
-centred cell with margin " │ " whose value is the node's value, whose first physical column is
-`textStartCol node.Start` and whose span ends at `textStartCol (node.Start + node.Len)` — exactly
-the physical columns of the logical columns (keys) the node covers — followed by the right-edge
-cell. With `keyheader_partition` (the node's value is the common field value of the keys it
-covers) and `keyheader_level_cover` (the nodes of a level tile all columns) this is: each header
-cell spans exactly the columns of the keys it labels, every column is under exactly one header
-cell per level. -/
-theorem header_cells_span_keys (keys : List (List Bytes)) (nf : Nat) (t : Table) :
-    ∃ t', runOps t (headerOps (textStartCol (keys.length + 1)) (nf + 1) (newKeyHeader keys nf)) = some t' ∧
-      t'.cells = t.cells ++
-        hdrCells (textStartCol (keys.length + 1)) (nf + 1) t.row.curRow (newKeyHeader keys nf) := by
-  apply header_run _ keys.length (textStartCol_mono (Nat.le_succ _))
+open Tab.KeyHeader in
+/-- every non-empty level of the tree `NewKeyHeader` returns tiles the columns (and the levels
+from `nfields` on are empty) -/
+theorem newKeyHeader_levels_tile (keys : List (List Bytes)) (nf : Nat) :
+    ∀ k, level (newKeyHeader keys nf) k ≠ [] → Tiles 0 keys.length (nodeSpans (level (newKeyHeader keys nf) k)) := by
   intro k hk
   by_cases hkn : k < nf
   · exact keyheader_level_cover keys nf k hkn
@@ -461,9 +535,200 @@ theorem header_cells_span_keys (keys : List (List Bytes)) (nf : Nat) (t : Table)
       obtain ⟨b, rfl⟩ : ∃ b, k = (f + 1) + b := ⟨k - (f + 1), by omega⟩
       rw [level_add, hd]; exact level_nil b
 
+open Tab.KeyHeader Tab.Render in
+/-- **header_cells_span_keys** (full strength): ToText's header loop over the KeyHeader of the
+column keys, started on ANY texttab table `t`, never panics (no `Col` to an earlier column) and
+adds exactly `hdrCells`: one row per tree level and on it, for every node of that level, one
+centred cell with margin " │ " whose value is the node's value, whose first physical column is
+`textStartCol node.Start` and whose span ends at `textStartCol (node.Start + node.Len)` — exactly
+the physical columns of the logical columns (keys) the node covers — followed by the right-edge
+cell. With `keyheader_partition` (the node's value is the common field value of the keys it
+covers) and `keyheader_level_cover` (the nodes of a level tile all columns) this is: each header
+cell spans exactly the columns of the keys it labels, every column is under exactly one header
+cell per level. -/
+theorem header_cells_span_keys (keys : List (List Bytes)) (nf : Nat) (t : Table) :
+    ∃ t', runOps t (headerOps (textStartCol (keys.length + 1)) (nf + 1) (newKeyHeader keys nf)) = some t' ∧
+      t'.cells = t.cells ++
+        hdrCells (textStartCol (keys.length + 1)) (nf + 1) t.row.curRow (newKeyHeader keys nf) := by
+  obtain ⟨t', h1, h2, _, _⟩ := header_run _ keys.length (textStartCol_mono (Nat.le_succ _)) (nf + 1)
+    (newKeyHeader keys nf) t (newKeyHeader_levels_tile keys nf)
+  exact ⟨t', h1, h2⟩
+
+open Tab.KeyHeader Tab.Render in
+/-- **toText_never_panics** (completes panic-freedom): for EVERY cells view — any column keys,
+any rows with cells present or absent in any pattern, any summaries, any warnings — the whole call
+sequence of ToText (header loop, unit row, every measurement row, summary row) runs on a fresh
+texttab table without ever moving to an earlier column, and the cells it adds are exactly
+`textCells v`: the header cells of every level (`hdrCells`), the unit cells over the centre
+columns and "vs base" over the delta columns of every non-baseline group (`unitCells`), the right
+edges, the label and the placed strings of every measurement row (`rowsPlaced`), and, iff there
+is more than one row, the summary row (`sumPlacedRow`). -/
+theorem toText_never_panics (v : View) :
+    ∃ t, build (toTextOps v).1 = some t ∧ t.cells = textCells v := by
+  have hre : textStartCol v.ncols ≤ textStartCol (v.ncols + 1) := textStartCol_mono (Nat.le_succ _)
+  obtain ⟨t1, a1, a2, a3, _⟩ := header_run (textStartCol (v.ncols + 1)) v.ncols hre (v.nfields + 1)
+    (newKeyHeader v.colKeys v.nfields) {} (newKeyHeader_levels_tile v.colKeys v.nfields)
+  have h0 : (({} : Table).row).curRow = 0 := rfl
+  rw [h0] at a2 a3
+  obtain ⟨t2, b1, b2, b3, _, _⟩ := unit_row_run (textStartCol (v.ncols + 1)) v.ncols hre v.unit t1
+  have hne2 : t2.cells ≠ [] := by rw [b2]; simp
+  obtain ⟨t3, c1, c2, c3, c4⟩ := data_rows_run v.rows [] t2 hne2
+  have hbuild : ∀ ops, build ops = runOps {} ops := fun _ => rfl
+  rw [hbuild, toTextOps_fst, runOps_append, runOps_append, runOps_append, a1, Option.bind_some, b1,
+    Option.bind_some, c1, Option.bind_some]
+  have hcells3 : t3.cells = hdrCells (textStartCol (v.ncols + 1)) (v.nfields + 1) 0 (newKeyHeader v.colKeys v.nfields) ++
+      (unitCells (levelCount (v.nfields + 1) (newKeyHeader v.colKeys v.nfields)) v.unit v.ncols ++
+        [edgeCell (levelCount (v.nfields + 1) (newKeyHeader v.colKeys v.nfields)) (textStartCol (v.ncols + 1))]) ++
+      rowsPlaced (levelCount (v.nfields + 1) (newKeyHeader v.colKeys v.nfields) + 1) [] v.rows := by
+    rw [c2, b2, a2, b3, a3]; simp
+  by_cases hr : v.rows.length > 1
+  · simp only [hr, if_true]
+    obtain ⟨t4, d1, d2⟩ := sum_row_run (dataRowsOps [] v.rows).1 v.summaryLabel v.summary t3
+    refine ⟨t4, d1, ?_⟩
+    have hrow : t3.row.curRow = levelCount (v.nfields + 1) (newKeyHeader v.colKeys v.nfields) + 1 + v.rows.length := by
+      rw [row_curRow_succ t3 c4, c3, b3, a3]; omega
+    rw [d2, hrow, hcells3]
+    simp [textCells, hr]
+  · simp only [hr, if_false]
+    refine ⟨t3, rfl, ?_⟩
+    rw [hcells3]
+    simp [textCells, hr]
+
 /-- non-trivial instance: the example of the doc comment of keyheader.go -/
 example : (Tab.KeyHeader.level (Tab.KeyHeader.newKeyHeader
     [[[49], [49], [49]], [[49], [49], [50]], [[50], [50], [50]], [[50], [51], [51]]] 3) 1).map
       (fun x => (x.value, x.start, x.len)) = [([49], 0, 2), ([50], 2, 1), ([51], 3, 1)] := by decide
+
+/-! ### both renderings decode to the same view -/
+
+open Tab.Render Tab.KeyHeader in
+/-- **decode_same_view** (a single statement for the measurement rows): let `t` be the texttab
+table ToText builds for the view (it exists: `toText_never_panics`) and `recs` the records ToCSV
+emits. Decode both by POSITION only — text: the value of the cell found at row
+`R + 1 + ri` (`R` header rows, then the unit row) and column `textStartCol exp + 0/1/3/4`
+(empty if no cell is there; parentheses stripped from the p-value); CSV: field
+`csvStartCol exp + 0/1/2/3` of record `nf + 1 + ri`. Then for every measurement row `ri` and
+EVERY logical column `exp` (cell present, absent, without comparison, or beyond the row's cells)
+both decodings give the entry of the view at (ri, exp): the same label, range, delta and p-value
+strings, and as centre the text's resp. the CSV's spelling of the same number. Hence
+`decodeText = decodeCsv` up to the centre spelling. (Summary row: `text_csv_same_view_summary`;
+the two presentation differences: the summary row is in the text only for tables with more than
+one row, and warnings are footnotes in the text / a second stream in the CSV: `same_warnings`.) -/
+theorem decode_same_view (v : View) (startRow : Nat) :
+    ∃ t, build (toTextOps v).1 = some t ∧
+      ∀ ri row, v.rows[ri]? = some row →
+        let R := levelCount (v.nfields + 1) (newKeyHeader v.colKeys v.nfields)
+        let recs := (toCsv v startRow).recs
+        decodeTextLabel t.cells R ri = row.1 ∧ decodeCsvLabel recs v.nfields ri = row.1 ∧
+        ∀ exp,
+          decodeText t.cells R ri exp = viewEntry true (row.2.getD exp none) exp ∧
+          decodeCsv recs v.nfields ri exp = viewEntry false (row.2.getD exp none) exp ∧
+          (decodeText t.cells R ri exp).range = (decodeCsv recs v.nfields ri exp).range ∧
+          (decodeText t.cells R ri exp).delta = (decodeCsv recs v.nfields ri exp).delta ∧
+          (decodeText t.cells R ri exp).p = (decodeCsv recs v.nfields ri exp).p := by
+  obtain ⟨t, ht, hcells⟩ := toText_never_panics v
+  refine ⟨t, ht, ?_⟩
+  intro ri row hrow
+  simp only
+  rw [hcells]
+  -- the CSV record of the row
+  have hlt : ri < v.rows.length := by
+    rcases Nat.lt_or_ge ri v.rows.length with h | h
+    · exact h
+    · rw [List.getElem?_eq_none h] at hrow; cases hrow
+  have hrec : (toCsv v startRow).recs.getD (v.nfields + 1 + ri) [] = csvRowRec row := by
+    rw [toCsv_recs]
+    have hl : ((List.range v.nfields).map (csvHeaderRow v.colKeys) ++ [csvUnitRow v.ncols v.unit]).length = v.nfields + 1 := by simp
+    rw [List.append_assoc, List.getD_eq_getElem?_getD, List.getElem?_append_right (by omega), hl,
+      show v.nfields + 1 + ri - (v.nfields + 1) = ri by omega,
+      List.getElem?_append_left (by simpa using hlt), List.getElem?_map, hrow]
+    rfl
+  have hslots := csvDataCols_slots 0 row.2 [row.1] [] 0 (by simp [csvStartCol])
+  have hcsv : ∀ exp j, j < csvGroupWidth exp →
+      (csvRowRec row).getD (csvStartCol exp + j) [] = csvSlot (row.2.getD exp none) exp j := by
+    intro exp j hj
+    unfold csvRowRec
+    by_cases he : exp < row.2.length
+    · have := hslots.2.2 exp he j (by simpa using hj)
+      simpa using this
+    · have hnone : row.2.getD exp none = none := by
+        simp [List.getD_eq_getElem?_getD, List.getElem?_eq_none (Nat.le_of_not_lt he)]
+      rw [hnone]
+      have h1 : 1 ≤ csvStartCol exp := by unfold csvStartCol; split <;> omega
+      have := hslots.2.1 (csvStartCol exp + j) (by simp; omega)
+        (Or.inr (by
+          have := @csvStartCol_mono (0 + row.2.length) exp (by omega)
+          omega))
+      simpa [csvSlot] using this
+  have hlabc : decodeCsvLabel (toCsv v startRow).recs v.nfields ri = row.1 := by
+    unfold decodeCsvLabel
+    rw [hrec]
+    have := hslots.1 0 (by simp)
+    simpa [csvRowRec] using this
+  refine ⟨textVal_label v ri row hrow, hlabc, ?_⟩
+  intro exp
+  have ht0 := textVal_slot v ri row hrow exp 0 (Or.inl rfl) (by unfold textGroupWidth; split <;> omega)
+  have ht1 := textVal_slot v ri row hrow exp 1 (Or.inr (Or.inl rfl)) (by unfold textGroupWidth; split <;> omega)
+  have hte := textSlot_entry (row.2.getD exp none) exp
+  have hce := csvSlot_entry (row.2.getD exp none) exp
+  have hgc : 2 ≤ csvGroupWidth exp := by unfold csvGroupWidth; split <;> omega
+  have hc0 := hcsv exp 0 (by omega)
+  have hc1 := hcsv exp 1 (by omega)
+  have htext : decodeText (textCells v) (levelCount (v.nfields + 1) (newKeyHeader v.colKeys v.nfields)) ri exp
+      = viewEntry true (row.2.getD exp none) exp := by
+    unfold decodeText
+    simp only [Nat.add_zero] at ht0
+    rw [ht0, ht1, hte.1, hte.2.1]
+    by_cases he : exp > 0
+    · have hg6 : textGroupWidth exp = 6 := by
+        unfold textGroupWidth
+        have : (exp == 0) = false := by simp; omega
+        simp [this]
+      have ht3 := textVal_slot v ri row hrow exp 3 (Or.inr (Or.inr (Or.inl rfl))) (by omega)
+      have ht4 := textVal_slot v ri row hrow exp 4 (Or.inr (Or.inr (Or.inr rfl))) (by omega)
+      simp only [he, if_true]
+      rw [ht3, ht4, (hte.2.2 he).1, (hte.2.2 he).2]
+    · have h0 : exp = 0 := by omega
+      subst h0
+      simp only [Nat.lt_irrefl, if_false]
+      unfold viewEntry
+      cases row.2.getD 0 none <;> simp
+  have hcsvE : decodeCsv (toCsv v startRow).recs v.nfields ri exp = viewEntry false (row.2.getD exp none) exp := by
+    unfold decodeCsv
+    simp only
+    rw [hrec]
+    simp only [Nat.add_zero] at hc0
+    rw [hc0, hc1, hce.1, hce.2.1]
+    by_cases he : exp > 0
+    · have hg4 : csvGroupWidth exp = 4 := by
+        unfold csvGroupWidth
+        have : (exp == 0) = false := by simp; omega
+        simp [this]
+      simp only [he, if_true]
+      rw [hcsv exp 2 (by omega), hcsv exp 3 (by omega), (hce.2.2 he).1, (hce.2.2 he).2]
+    · have h0 : exp = 0 := by omega
+      subst h0
+      simp only [Nat.lt_irrefl, if_false]
+      unfold viewEntry
+      cases row.2.getD 0 none <;> simp
+  refine ⟨htext, hcsvE, ?_, ?_, ?_⟩ <;>
+    (rw [htext, hcsvE]; unfold viewEntry; cases row.2.getD exp none with
+      | none => rfl
+      | some c => simp only; cases (if exp > 0 then c.delta else none) <;> rfl)
+
+open Tab.Render in
+/-- **unit_row** : ToText's column-labels row, run on any texttab table: never panics; for every
+logical column one centred cell with the unit over the three centre columns of its group
+(`unitCell`: columns `textStartCol i .. +2`, margin " │ "), for every non-baseline column "vs base"
+left-aligned over the three delta columns (`vsCell`: `textStartCol i + 3 .. +5`, margin two
+blanks), then the right edge; and the shrink marks afterwards are set on exactly the columns of a
+group other than its leftmost (`InGroupTail`), every other column keeps its mark. -/
+theorem unit_row (rEdge ncols : Nat) (hre : textStartCol ncols ≤ rEdge) (unit : Bytes) (t : Table) :
+    ∃ t', runOps t (unitRowOps rEdge ncols unit) = some t' ∧
+      t'.cells = t.cells ++ unitCells t.row.curRow unit ncols ++ [edgeCell t.row.curRow rEdge] ∧
+      t'.curRow = t.row.curRow ∧
+      (∀ j, InGroupTail ncols j → t'.isShrink j = true) ∧
+      (∀ j, ¬ InGroupTail ncols j → t'.isShrink j = t.isShrink j) :=
+  unit_row_run rEdge ncols hre unit t
 
 end C16
